@@ -58,10 +58,10 @@ Record premade_raw := mkMR {
 Inductive cfg :=
 | CCanon (f : string) (args : list value) (r : result value)
 | CLatticeC (raw : lattice_raw)     (* LatticeConstraints(...) *)
-| CLatticeL (raw : lattice_raw)     (* Lattice(...) + build, default initialiser *)
-| CLinear (raw : linear_raw)        (* LinearConstraints(...) / Linear(...) + build *)
-| CPwl (raw : pwl_raw)              (* PWLCalibration(...) + build / PWLCalibrationConstraints *)
-| CCat (c : cat_cfg)                (* CategoricalCalibration(...) *)
+| CLatticeL (raw : lattice_raw) (units : Z)   (* Lattice(..., units) + build, default initialiser *)
+| CLinear (raw : linear_raw) (units : option Z)  (* LinearConstraints(...) [None] / Linear(..., units) + build *)
+| CPwl (raw : pwl_raw) (units : Z)  (* PWLCalibration(..., units) + build / PWLCalibrationConstraints (units unused) *)
+| CCat (c : cat_cfg) (units : option Z)  (* CategoricalCalibration(..., units) + build / ...Constraints [None] *)
 | CKfl (raw : kfl_raw)              (* KroneckerFactoredLattice(...) + build *)
 | CRtl (raw : rtl_raw)              (* RTL(...) + build *)
 | CCdf (raw : cdf_raw) (call_rejected : bool)   (* CDF(...) + build; ValueError from the first call *)
@@ -81,6 +81,36 @@ Fixpoint to_zs (l : list value) : option (list Z) :=
   | [] => Some []
   | x :: r => match num_z x, to_zs r with Some z, Some zs => Some (z :: zs) | _, _ => None end
   end.
+
+(* Integral floats.  The canonicalisers test membership with ==, so a float that
+   equals an int of the accepted set is accepted and RETURNED AS IT IS
+   (canonicalize_monotonicity(1.0) = 1.0, canonicalize_convexity(0.0) = 0.0,
+   a trust direction 1.0 ...), and the code that consumes the canonical value
+   compares it with == again (`monotonicity != 1`, `if convexity:` ...): an
+   integral float behaves like the int.  The typed model has ints only, so the
+   glue reads the canonicaliser's OUTPUT through norm_num: an integral VFloat
+   becomes the VInt it equals (anything else unchanged; non-integral floats
+   never leave the canonicalisers, they are ValueErrors there).  Trust
+   dimensions are NOT normalised: the code tests isinstance(dim, int). *)
+Definition q_integral (q : Q) : option Z :=
+  let r := Qred q in if Pos.eqb (Qden r) 1 then Some (Qnum r) else None.
+Definition norm_num (v : value) : value :=
+  match v with
+  | VFloat q => match q_integral q with Some z => VInt z | None => v end
+  | _ => v
+  end.
+Definition norm_nums (v : value) : value :=
+  match v with
+  | VList l => VList (map norm_num l)
+  | VTuple l => VTuple (map norm_num l)
+  | _ => norm_num v
+  end.
+Definition norm_trust (e : value) : value :=
+  match e with VTuple [a; b; d] => VTuple [a; b; norm_num d] | _ => e end.
+Definition norm_trusts (v : value) : value :=
+  match v with VList l => VList (map norm_trust l) | _ => v end.
+Definition rmap (f : value -> value) (r : result value) : result value :=
+  match r with Ok v => Ok (f v) | _ => r end.
 
 (* outcome of a list canonicaliser as: rejected | conversion impossible | typed *)
 Inductive conv (A : Type) := CReject | CStuck | CVal (a : A).
@@ -144,11 +174,11 @@ Definition dir_ok (d : value) : bool :=
 
 (* decision: Some true = accepted, Some false = ValueError, None = the glue
    cannot express the configuration (counts as a disagreement) *)
-Definition decide_lattice (layer : bool) (r : lattice_raw) : option bool :=
-  match conv_zs (canonicalize_monotonicities (r_monos r) (VBool false)),
-        conv_zs (canonicalize_unimodalities (r_unimods r)),
-        conv_trusts (canonicalize_trust (r_edge r)),
-        conv_trusts (canonicalize_trust (r_trap r)) with
+Definition decide_lattice (layer : option Z) (r : lattice_raw) : option bool :=
+  match conv_zs (rmap norm_nums (canonicalize_monotonicities (r_monos r) (VBool false))),
+        conv_zs (rmap norm_nums (canonicalize_unimodalities (r_unimods r))),
+        conv_trusts (rmap norm_trusts (canonicalize_trust (r_edge r))),
+        conv_trusts (rmap norm_trusts (canonicalize_trust (r_trap r))) with
   | CStuck, _, _, _ | _, CStuck, _, _ | _, _, CStuck, _ | _, _, _, CStuck => None
   | CVal m, CVal u, CVal e, CVal t =>
       let c := mkL (r_sizes r) m u e t (r_mdom r) (r_rdom r) (r_jmono r)
@@ -158,35 +188,41 @@ Definition decide_lattice (layer : bool) (r : lattice_raw) : option bool :=
                     end)
                    (r_omin r) (r_omax r)
                    (py_in (r_interp r) [VStr "hypercube"; VStr "simplex"]) in
-      Some (if layer then accepts_lattice_layer c else accepts_lattice_constraints_obj c)
+      Some (match layer with
+            | Some units => accepts_lattice_layer_units c units
+            | None => accepts_lattice_constraints_obj c
+            end)
   | _, _, _, _ => Some false
   end.
+Definition decide_lattice_layer (r : lattice_raw) (units : Z) : option bool := decide_lattice (Some units) r.
 
-Definition decide_linear (r : linear_raw) : option bool :=
-  match conv_zs (canonicalize_monotonicities (nr_monos r) (VBool true)),
+Definition decide_linear (r : linear_raw) (units : option Z) : option bool :=
+  match conv_zs (rmap norm_nums (canonicalize_monotonicities (nr_monos r) (VBool true))),
         conv_bounds (canonicalize_input_bounds (nr_imin r)),
         conv_bounds (canonicalize_input_bounds (nr_imax r)) with
   | CStuck, _, _ | _, CStuck, _ | _, _, CStuck => None
   | CVal m, CVal lo, CVal hi =>
-      Some (accepts_linear (mkLin m (nr_num_input_dims r) (nr_mdom r) (nr_rdom r) lo hi))
+      let c := mkLin m (nr_num_input_dims r) (nr_mdom r) (nr_rdom r) lo hi in
+      Some (match units with Some u => accepts_linear_layer c u | None => accepts_linear c end)
   | _, _, _ => Some false
   end.
 
-Definition decide_pwl (r : pwl_raw) : option bool :=
-  match conv_scalar (canonicalize_monotonicity (pr_mono r) (VBool true)),
-        conv_scalar (canonicalize_convexity (pr_convex r)) with
+Definition decide_pwl (r : pwl_raw) (units : Z) : option bool :=
+  match conv_scalar (rmap norm_num (canonicalize_monotonicity (pr_mono r) (VBool true))),
+        conv_scalar (rmap norm_num (canonicalize_convexity (pr_convex r))) with
   | CStuck, _ | _, CStuck => None
   | CVal m, CVal cv =>
-      Some (accepts_pwl (mkP (pr_keypoints r) (pr_omin r) (pr_omax r) m cv (pr_cyclic r)
-                             (py_in (pr_kp_type r) [VStr "fixed"; VStr "learned_interior"])
-                             (py_eq (pr_kp_type r) (VStr "learned_interior"))
-                             (py_in (pr_convex r) [VStr "none"; VInt 0])
-                             (pr_impute r) (pr_missing_in r) (pr_missing_out r) (pr_layer r)))
+      Some (accepts_pwl_layer
+              (mkP (pr_keypoints r) (pr_omin r) (pr_omax r) m cv (pr_cyclic r)
+                   (py_in (pr_kp_type r) [VStr "fixed"; VStr "learned_interior"])
+                   (py_eq (pr_kp_type r) (VStr "learned_interior"))
+                   (py_in (pr_convex r) [VStr "none"; VInt 0])
+                   (pr_impute r) (pr_missing_in r) (pr_missing_out r) (pr_layer r)) units)
   | _, _ => Some false
   end.
 
 Definition decide_kfl (r : kfl_raw) : option bool :=
-  match conv_zs (canonicalize_monotonicities (kr_monos r) (VBool false)) with
+  match conv_zs (rmap norm_nums (canonicalize_monotonicities (kr_monos r) (VBool false))) with
   | CStuck => None
   | CReject => Some false
   | CVal m => Some (accepts_kfl (mkK (kr_size r) (kr_units r) (kr_terms r) m (kr_dims r) (kr_omin r) (kr_omax r)))
@@ -219,11 +255,27 @@ Fixpoint reg_entries_of (es : list value) : option (list reg_entry) :=
       match reg_entry_of xs, reg_entries_of r with Some e, Some l => Some (e :: l) | _, _ => None end
   | _ => None
   end.
-(* `if isinstance(kernel_regularizer, list): if isinstance(kernel_regularizer[0], str): [kernel_regularizer]` *)
+(* the elements of a TUPLE of regularisers, as the Lattice layer iterates them:
+   a tuple element is unpacked as (name, l1, l2); a list element goes to
+   keras.regularizers.get, which raises ValueError (an entry no Lattice
+   accepts: unknown name); anything else (str / dict / callable ...) is not
+   expressible here *)
+Fixpoint reg_tuple_entries_of (es : list value) : option (list reg_entry) :=
+  match es with
+  | [] => Some []
+  | VTuple xs :: r =>
+      match reg_entry_of xs, reg_tuple_entries_of r with Some e, Some l => Some (e :: l) | _, _ => None end
+  | VList xs :: r => option_map (cons (mkReg (zlen xs) false AmtOther AmtOther)) (reg_tuple_entries_of r)
+  | _ => None
+  end.
+(* `if isinstance(kernel_regularizer, list): if isinstance(kernel_regularizer[0], str): [kernel_regularizer]`
+   (rtl_lib, RTL.build);  `isinstance(kernel_regularizer, tuple) and isinstance(kernel_regularizer[0], str)`
+   (Lattice.__init__): a tuple that starts with a str is ONE regulariser, any other tuple is iterated *)
 Definition regs_of (v : value) : option rtl_regs :=
   match v with
   | VNone => Some RegNone
-  | VTuple xs => option_map RegTuple (reg_entry_of xs)
+  | VTuple ((VStr _ :: _) as xs) => option_map RegTuple (reg_entry_of xs)
+  | VTuple es => option_map RegTuples (reg_tuple_entries_of es)
   | VList [] => Some (RegList [])
   | VList ((VStr _ :: _) as xs) => option_map (fun e => RegList [e]) (reg_entry_of xs)
   | VList es => option_map RegList (reg_entries_of es)
@@ -265,7 +317,7 @@ Definition cdf_of (r : cdf_raw) (mono_ok : bool) : cdf_cfg :=
         (py_in (dr_activation r) [VStr "relu6"; VStr "sigmoid"])
         (py_in (dr_reduction r) [VStr "mean"; VStr "geometric_mean"; VStr "none"]).
 Definition decide_cdf (r : cdf_raw) : option cdf_cfg :=
-  match conv_scalar (canonicalize_monotonicity (dr_mono r) (VBool true)) with
+  match conv_scalar (rmap norm_num (canonicalize_monotonicity (dr_mono r) (VBool true))) with
   | CStuck => None
   | CReject => Some (cdf_of r false)
   | CVal _ => Some (cdf_of r true)
@@ -360,11 +412,14 @@ Definition agrees (d : option bool) (o : observed) : bool :=
 Definition check (c : case) : bool :=
   match c_cfg c with
   | CCanon f args r => result_same (gen_call f args) r
-  | CLatticeC raw => agrees (decide_lattice false raw) (c_obs c)
-  | CLatticeL raw => agrees (decide_lattice true raw) (c_obs c)
-  | CLinear raw => agrees (decide_linear raw) (c_obs c)
-  | CPwl raw => agrees (decide_pwl raw) (c_obs c)
-  | CCat cc => agrees (Some (accepts_categorical cc)) (c_obs c)
+  | CLatticeC raw => agrees (decide_lattice None raw) (c_obs c)
+  | CLatticeL raw units => agrees (decide_lattice_layer raw units) (c_obs c)
+  | CLinear raw units => agrees (decide_linear raw units) (c_obs c)
+  | CPwl raw units => agrees (decide_pwl raw units) (c_obs c)
+  | CCat cc units => agrees (Some (match units with
+                                   | Some u => accepts_categorical_layer cc u
+                                   | None => accepts_categorical cc
+                                   end)) (c_obs c)
   | CKfl raw => agrees (decide_kfl raw) (c_obs c)
   | CRtl raw => agrees (decide_rtl raw) (c_obs c)
   | CCdf raw call_rejected => check_cdf raw call_rejected (c_obs c)
